@@ -196,6 +196,51 @@ def run(tier):
             if r_.random() < 0.1:
                 acts.append(eval_action([fkey, "missing.pa"], files=files, tag={"k": "argfile-missing"}))
         blocks.append((cfg, acts))
+    # ---- T3b: "reading arguments from a file or an environment variable should not influence the cardinality checks" (handler.hpp):
+    #           a multi-value argument with an upper cardinality bound gets separate values from the program's argument file, from the
+    #           environment variable, or from an argument file NAMED IN the environment variable (both read modes at once), and then
+    #           more values on the command line - as many as its bound allows
+    nsrc = 0
+    for _ in range(40 if tier == "quick" else 1500):
+        cfg = g.cfg(nargs=r_.randint(1, 3), constraints=False, allow_pos=False, kinds=["flag", "int", "vecint", "vecstr", "listint", "dequeint"])
+        conts = [i + 1 for i, a in enumerate(cfg["args"]) if arggen.is_cont(a["kind"])]
+        if not conts:
+            continue
+        for a in cfg["args"]:
+            a["mand"] = False
+            if arggen.is_cont(a["kind"]):
+                a["card"] = {"t": "max", "a": r_.randint(1, 4), "b": 0}; a["multi"] = True; a["uniq"] = "no"; a["clear"] = False; a["checks"] = []
+        fa = arggen.new_arg("flag"); fa["kind"] = "argfile"; fa["vm"] = "req"; fa["init"] = False
+        fa["s"] = next(ord(ch) for ch in "FPAY" if ord(ch) not in {a["s"] for a in cfg["args"]}); fa["l"] = T("argfile")
+        cfg["args"].append(fa)
+        fkey = r_.choice(["-" + chr(fa["s"]), "--argfile"])
+        acts = []
+        for _ in range(nlines):
+            i = r_.choice(conts)
+            a = cfg["args"][i - 1]
+            key = ("-" + chr(a["s"])) if a["s"] else "--" + S(a["l"])
+            pre = [g.good_value(a) for _ in range(r_.randint(1, 5))]
+            cmdv = [g.good_value(a) for _ in range(r_.randint(0, a["card"]["a"]))]
+            if any(v is None or v == "" or v.startswith("-") for v in pre + cmdv):
+                continue
+            pre_words = [key] + pre                                    # every value a separate word
+            ftext, k = "", 0
+            while k < len(pre_words):
+                m = r_.randint(1, len(pre_words) - k)
+                ftext += join_words(r_, pre_words[k:k + m]) + "\n"
+                k += m
+            argv = ([key] + cmdv) if cmdv else []
+            how = r_.choice(["file", "env", "envfile", "envfile"])
+            if how == "file":
+                acts.append(eval_action(argv, presrc="file", filetext=T(ftext), envstr=[], prog=T("prog"), tag={"k": "src-card", "how": how}))
+            elif how == "env":
+                acts.append(eval_action(argv, presrc="env", filetext=[], envstr=T(join_words(r_, pre_words)), prog=T("prog"), tag={"k": "src-card", "how": how}))
+            else:
+                acts.append(eval_action(argv, presrc="env", filetext=[], envstr=T(fkey + " inner.pa"), prog=T("prog"),
+                                        files=[{"name": T("inner.pa"), "text": T(ftext)}], tag={"k": "src-card", "how": how}))
+            nsrc += 1
+        blocks.append((cfg, acts))
+    c.notes.append("T3b: %d evaluations of bounded multi-value arguments filled from file / environment / file named in the environment and then from argv" % nsrc)
     script2 = os.path.join(c.wd, "random.ndjson")
     write_cases(script2, blocks)
     rej, tr = run_script(c, exe, script2, "T")
